@@ -675,3 +675,51 @@ Example key_applied_without_generated_eq :
   let c := Cl 0 0%Z [F None (EqK K0)] false false false false in
   fcompute c [0] = fcompute c [2] /\ fcompute c [0] <> fcompute c [1].
 Proof. cbn. split; [reflexivity | discriminate]. Qed.
+
+(** ** The script term denotes the model's hash computation: evaluating the elements
+    of [make_hash_script c] on the field values gives exactly the tuple elements
+    [hash_elems] that [compute] hashes; the store mode is the cache protocol of
+    [do_hash] (none / frozen store / plain store). *)
+Section ScriptDenotes.
+  Variable val : Type.
+  Variable key : keyid -> val -> val.
+  Variable dv : val.
+
+  Definition eval_elem (fs : list fld) (vs : list val) (e : helem) : val :=
+    match e with
+    | HField n => nth n vs dv
+    | HKeyed n => match f_key (nth n fs (F None EqT)) with
+                  | Some k => key k (nth n vs dv)
+                  | None => nth n vs dv
+                  end
+    end.
+
+  Lemma script_elems_denote_gen : forall fs vs pf pv,
+    length pf = length pv -> length fs = length vs ->
+    map (eval_elem (pf ++ fs) (pv ++ vs)) (script_elems (length pf) fs) = hash_elems val key fs vs.
+  Proof.
+    induction fs as [|f r IH]; intros vs pf pv Hp Hl; [reflexivity|].
+    destruct vs as [|v vs]; [discriminate|]. cbn in Hl. injection Hl as Hl.
+    assert (Hrec : map (eval_elem (pf ++ f :: r) (pv ++ v :: vs)) (script_elems (S (length pf)) r)
+                   = hash_elems val key r vs).
+    { specialize (IH vs (pf ++ [f]) (pv ++ [v])).
+      rewrite !app_length in IH. cbn in IH. rewrite Nat.add_1_r in IH.
+      rewrite <- !app_assoc in IH. cbn in IH. apply IH; [lia | exact Hl]. }
+    cbn. destruct (in_hash f); [|exact Hrec].
+    cbn. rewrite Hrec. f_equal.
+    unfold keyed. destruct (f_key f) eqn:Ek; cbn.
+    - rewrite nth_middle. rewrite Ek. rewrite Hp. now rewrite nth_middle.
+    - rewrite Hp. now rewrite nth_middle.
+  Qed.
+
+  Theorem script_denotes_l : forall c vs, length (flds c) = length vs ->
+    map (eval_elem (flds c) vs) (hs_elems (make_hash_script c)) = hash_elems val key (flds c) vs
+    /\ hs_wrapper_arg (make_hash_script c) = cache c
+    /\ (hs_store (make_hash_script c) = StReturn <-> cache c = false).
+  Proof.
+    intros c vs Hl. split; [|split].
+    - exact (script_elems_denote_gen (flds c) vs [] [] eq_refl Hl).
+    - reflexivity.
+    - unfold make_hash_script; cbn. destruct (cache c), (frozen c); split; intros; congruence.
+  Qed.
+End ScriptDenotes.
